@@ -319,6 +319,9 @@ def randn(N, R, var=1.0, dtype=tn.float64, device=None):
         torchtt.TT: the result.
     """
 
+    if len(N)+1 != len(R) or R[0] != 1 or R[-1] != 1 or len(N) == 0:
+        raise InvalidArguments('Check if N and R are right.')
+
     d = len(N)
     v1 = var / np.prod(R)
     v = v1**(1/d)
